@@ -31,7 +31,8 @@ VARIANTS = {
     "DT-single": dict(family="DT", serial=b"9010KDSN000W0000", refuse=[]),
 }
 V2 = ("ET-v2", "ET-745", "ET-v2-tcp", "ES-v2")
-GROUP_CONTENT = ("off", "window", "fulltime-charge", "peak", "unset", "garbage")
+GROUP_CONTENT = ("off", "window", "fulltime-charge", "peak", "unset", "garbage", "badpower", "badsoc", "badpower745", "badsoc745")
+# bad*: times, days and the flavour (on/off) byte are fine, only power or SoC is out of range - decoding fails late
 
 
 def group_bytes(v2: bool, kind: str, salt: int):
@@ -40,11 +41,15 @@ def group_bytes(v2: bool, kind: str, salt: int):
             "off": bytes.fromhex("300030000000006400640000"), "window": bytes((8, salt % 60, 10, 30, 0xFF, 0x3E)) + bytes.fromhex("ffec00500000"),
             "fulltime-charge": bytes.fromhex("0000173bff7fffce00500000"), "peak": bytes.fromhex("0000173bfc7f00c800640000"),
             "unset": bytes.fromhex("300030005500006400640000"), "garbage": bytes.fromhex("632563256325632563256325"),
+            "badpower": bytes.fromhex("0000173bff7f7fff00500000"), "badsoc": bytes.fromhex("0000173bff7fffceffff0000"),
+            "badpower745": bytes.fromhex("0000173bf97f7fff00500fff"), "badsoc745": bytes.fromhex("0000173bf97fff38ffff0fff"),
         }[kind]
     return {
         "off": bytes.fromhex("3000300000640000"), "window": bytes((8, salt % 60, 10, 30)) + bytes.fromhex("ffecff3e"),
         "fulltime-charge": bytes.fromhex("0000173bffceff7f"), "peak": bytes.fromhex("0000173b0028ff7f"),
         "unset": bytes.fromhex("0a000b00001e0041"), "garbage": bytes.fromhex("6325632563256325"),
+        "badpower": bytes.fromhex("0000173b7fffff7f"), "badsoc": bytes.fromhex("0000173b8000ff7f"),
+        "badpower745": bytes.fromhex("0000173b7fffff7f"), "badsoc745": bytes.fromhex("0000173b8000ff7f"),
     }[kind]
 
 
